@@ -12,6 +12,14 @@ from lib import log
 
 ALLOWED_AXIOMS = set()   # the development is intended to be axiom free
 
+# which generated tables each property rests on
+TABLES_OF = {
+    'C01': ['BytesOk', 'EscapesOk'], 'C02': ['EscapesOk'], 'C03': ['StageOrderOk'], 'C04': ['FnTableOk'], 'C05': ['BytesOk', 'FnTableOk'],
+    'C06': ['BytesOk'], 'C07': ['RankOk'], 'C08': ['StageOrderOk'], 'C09': ['StageOrderOk'], 'C10': ['StageOrderOk'], 'C11': ['StageOrderOk'],
+    'C12': ['FnTableOk'], 'C13': ['FnTableOk'], 'C14': ['StageOrderOk'], 'C15': ['StageOrderOk'], 'C16': ['StageOrderOk'], 'C17': ['StageOrderOk'],
+    'C18': ['StageOrderOk', 'FnTableOk'], 'C19': ['BytesOk'], 'C20': ['MainWiringOk'],
+}
+
 def hygiene():
     """no Admitted / Axiom / Parameter ... anywhere in the development"""
     bad = []
@@ -64,6 +72,13 @@ def load_known():
     if os.path.exists(p): return json.load(open(p))
     return {'findings': [], 'fixed': []}
 
+def _mm():
+    try:
+        import common
+        return common.LAST_MISMATCHES[:5]
+    except Exception:
+        return []
+
 def main():
     argv = sys.argv[1:]
     prop = argv[0]
@@ -86,11 +101,15 @@ def main():
     rc, out = lib.gen_tables()
     if rc != 0: broken.append('translator: gen_tables failed: ' + out[-300:])
     theorems = pinned_theorems(prop)
-    table_lemmas = re.findall(r'^Lemma\s+([\w\']+)', open(os.path.join(lib.COQ, 'Proofs', 'TableProofs.v')).read(), re.M)
-    ok, out = lib.coq_make(['Proofs/TableProofs.vo', 'Props/%s.vo' % prop])
+    # table obligations of this property: one file per table regenerated from the source
+    tables = getattr(mod, 'TABLES', None) or TABLES_OF.get(prop, [])
+    table_lemmas = []
+    for t in tables:
+        table_lemmas += ['%s.%s' % (t, x) for x in re.findall(r'^Lemma\s+([\w\']+)', open(os.path.join(lib.COQ, 'Tables', t + '.v')).read(), re.M)]
+    ok, out = lib.coq_make(['Tables/%s.vo' % t for t in tables] + ['Props/%s.vo' % prop])
     cov['checker_cmd'] = 'coq_makefile -f _CoqProject -o Makefile && make Props/%s.vo (coqc 8.16.1, full .vo build) ; coqc Print Assumptions per pinned theorem' % prop
     discharged = 0
-    obligations = list(theorems) + ['TableProofs.' + t for t in table_lemmas]
+    obligations = list(theorems) + table_lemmas
     ass_log = ''
     if not ok:
         m = re.search(r'File "([^"]+)", line (\d+).*?\n(Error.*?)(\n\n|$)', out, re.S)
@@ -152,11 +171,12 @@ def main():
         v = violations[0]
         p = os.path.join(vdir, '%s_%d.json' % (prop, int(time.time())))
         v['broken'] = broken
+        v['model_mismatches'] = _mm()
         json.dump(v, open(p, 'w'), indent=1, default=str)
         print('VIOLATION property=%s replay=%s' % (prop, p)); rc = 1
     elif broken:
         p = os.path.join(vdir, '%s_%d.json' % (prop, int(time.time())))
-        json.dump({'property': prop, 'no_failing_input': True, 'broken': broken}, open(p, 'w'), indent=1)
+        json.dump({'property': prop, 'no_failing_input': True, 'broken': broken, 'model_mismatches': _mm()}, open(p, 'w'), indent=1)
         log('\n'.join(broken))
         print('VIOLATION property=%s replay=%s no-failing-input-found' % (prop, p)); rc = 1
     ev['violations'] = len(violations) + (1 if broken and not violations else 0)
